@@ -456,6 +456,23 @@ def c20_state(tr, st, c):
     return out
 
 
+EXPECTED_ORDER = ["_check_happening_events", "calc_overproduction", "calc_production", "distribute_production",
+                  "rebuild_events", "recover_events", "calc_orders"]
+
+
+def phase_sequence(tr, st, c, prop="C02"):
+    """the phases of a completed step run in the documented order: events, overproduction (from the third
+    step on), production, distribution, ledgers, orders"""
+    out = []
+    if st.get("res") != 0:
+        return out
+    want = [n for n in EXPECTED_ORDER if n != "calc_overproduction" or st["t"] > 1]
+    got = st.get("order", [])
+    if got != want:
+        out.append(viol(prop, st["t"], "phases of the step did not run in the documented order", got=got, expected=want))
+    return out
+
+
 PER_STEP = {"C03": c03, "C04": c04, "C05": c05, "C06": c06, "C07": c07, "C14": c14, "C20": c20_state}
 
 
@@ -582,4 +599,13 @@ def c02(tr, st, c):
     return out
 
 
-PER_STEP["C02"] = c02
+def c02_all(tr, st, c):
+    return c02(tr, st, c) + phase_sequence(tr, st, c, "C02")
+
+
+def c14_all(tr, st, c):
+    return c14(tr, st, c) + phase_sequence(tr, st, c, "C14")
+
+
+PER_STEP["C02"] = c02_all
+PER_STEP["C14"] = c14_all
